@@ -554,8 +554,17 @@ where
 			change, num_change_outputs
 		);
 
-		let part_change = change / num_change_outputs as u64;
-		let remainder_change = change % part_change;
+		// the change is split into `num_change_outputs` non-zero outputs: n-1 equal
+		// parts and a last one that also takes the remainder of the division
+		let num_change = num_change_outputs as u64;
+		if num_change == 0 || change < num_change {
+			return Err(Error::GenericError(format!(
+				"Unable to split a change of {} into {} change outputs",
+				change, num_change_outputs
+			)));
+		}
+		let part_change = change / num_change;
+		let remainder_change = change % num_change;
 
 		for x in 0..num_change_outputs {
 			// n-1 equal change_outputs and a final one accounting for any remainder
